@@ -711,7 +711,23 @@ func (x *Exec) frameObligations(fn *ssa.Function, c *Contract, params []Val, r r
 		all  bool // whole array row (map contents)
 	}
 	var allow []allowed
+	wholeArrays := map[string]bool{}
 	for _, m := range c.Modifies {
+		if sel, ok := m.(*ESel); ok {
+			if call, ok := sel.X.(*ECall); ok {
+				if id, ok := call.Fn.(*EIdent); ok && id.Name == "every" && len(call.Args) == 1 {
+					if ts, ok := call.Args[0].(*EStr); ok {
+						if t, err := x.eng.lookupType(ts.V, c.Imports, c.PkgPath); err == nil {
+							_, ls := x.eng.subLayout(t, sel.Name)
+							for _, l := range ls {
+								wholeArrays[x.hName(t, joinPath(sel.Name, l.Path))] = true
+							}
+						}
+					}
+					continue
+				}
+			}
+		}
 		if call, ok := m.(*ECall); ok {
 			if id, ok := call.Fn.(*EIdent); ok && (id.Name == "mapOf" || id.Name == "elemsOf") && len(call.Args) == 1 {
 				v, err := env.evalRV(call.Args[0])
@@ -757,6 +773,9 @@ func (x *Exec) frameObligations(fn *ssa.Function, c *Contract, params []Val, r r
 			continue
 		}
 		sort := x.arraySort[name]
+		if wholeArrays[name] {
+			continue
+		}
 		now := r.st.Get(name, sort)
 		was := entry.Get(name, sort)
 		if now == was {
